@@ -11,9 +11,11 @@ Model (ocaml/c14_driver.ml): range/rr the same canonical string; rack per topic
   pair of zone iteration orders; "~" = orders not enumerated.
 Leader path, ops lrange / lrr / lrack: <partitions> is the CLUSTER held by a fake broker; the real
   ConsumerGroup.assignTopicPartitions (kafka.VerifAssignTopicPartitions) asks it for extractTopics(members).
-  go result  = "<canonical as range/rr (no perm) | rack runs joined by '/'> req=<requested topics hex,hex | ->"
-               (+ " calls=N" if the broker was not asked exactly once; ERR:<msg> / PANIC instead of <canonical>)
-  model      = "<as range/rr/rack on leader_partitions> req=<extract_topics>"
+  The broker fails a request naming a topic it has no partition of (UnknownTopicOrPartition); the leader
+  then asks topic by topic (when > 1 topics).  Every request is journalled.
+  go result  = "<canonical as range/rr (no perm) | rack runs joined by '/'> req=<r1>;<r2>;..."   r = hex,hex | -
+               (ERR:<msg> / PANIC instead of <canonical>; req=none when no request was made)
+  model      = "<as range/rr/rack on leader_partitions> req=<leader_requests>"
   The predicates judge the output against the CLUSTER, not against what was requested.
 """
 import hashlib, json, os, subprocess
@@ -22,7 +24,7 @@ import checklib as L
 TRUSTED_BASE = [
     "Coq 8.16.1 kernel (coqc; coqchk in the thorough tier); vm_compute used only in non-vacuity Examples; no native_compute",
     "hand-written model coq/Model/GroupBalancers.v of /repo/groupbalancer.go, tied by the differential run of harness/cmd/c14 (real AssignGroups, build tag verif) against the OCaml extraction (ExtrOcamlBasic only: bool/option/unit/list/prod/sumbool mapped; nat, positive, N, Z kept as Coq datatypes)",
-    "leader path: extract_topics / read_partitions / leader_* of the same model file mirror extractTopics (reader.go) and the success path of ConsumerGroup.assignTopicPartitions; the real function is driven through /repo/verif_export_c14.go (coordinator seam: only readPartitions is replaced, by a fake broker in harness/cmd/c14 that records the requested topics and returns the cluster's partitions of exactly those topics); the broker answering UnknownTopicOrPartition is not part of the default run (harness flag -unknown)",
+    "leader path: extract_topics / read_partitions / leader_* of the same model file mirror extractTopics (reader.go) and ConsumerGroup.assignTopicPartitions with its per-topic fallback after UnknownTopicOrPartition (other read errors are not modelled); the real function is driven through /repo/verif_export_c14.go (coordinator seam: only readPartitions is replaced, by a fake broker in harness/cmd/c14 that journals every request, fails a request naming a topic of which the cluster lists no partition with UnknownTopicOrPartition as a whole, and otherwise returns the cluster's partitions of exactly the requested topics in cluster order — that this is how a broker behaves through Conn.ReadPartitions is trusted); the hook builds the ConsumerGroup with an empty config.Topics",
     "sort.Slice in findMembersByTopic is modelled as an insertion sort by member id; the two agree when ids are distinct (compared on every run, not verified)",
     "Go map iteration order: never used by the Range/RoundRobin model (association lists in insertion order, results canonicalised before comparison); the two 'range zonedPartitions' loops of RackAffinity.assignTopic take their iteration orders as explicit parameters of the model, and the differential accepts a Go result iff it is the model's result for SOME pair of orders (all pairs enumerated when a topic has <= 3 leader racks, <= 4 for small topics)",
     "Go slice semantics: s[:k] with k > len(s) is the model outcome None (the real code panics beyond cap and reads stale elements below it); append never aliases because every appended-to slice is owned by one map entry",
@@ -118,10 +120,17 @@ def parse_rack_model(s):
 # ----------------------------------------------------------------------------- the property on an output
 
 def req_violations(G, req):
-    """leader ops: the broker must be asked once, for the sorted set of all subscribed topics."""
-    want = ",".join(sorted(G.subs, key=hx)) or "-"
+    """leader ops, the journal of metadata requests r1;r2;...: the first asks for the sorted set of
+    all subscribed topics; if that names a topic the cluster lacks and has > 1 topics it is followed
+    by exactly one single-topic request per topic, in the same order; otherwise by nothing."""
+    topics = sorted(G.subs, key=hx)
+    want = [",".join(topics) or "-"]
+    if len(topics) > 1 and any(t not in G.listed for t in topics):
+        want += topics
+    want = ";".join(want)
     if req != want:
-        return [("req", f"the leader asked the broker for topics [{req}], the members subscribe to [{want}]")]
+        return [("req", f"the leader's metadata requests were [{req}]; the members subscribe to [{want.split(';')[0]}]"
+                        f" and the cluster lacks [{','.join(t for t in topics if t not in G.listed)}], so they must be [{want}]")]
     return []
 
 
@@ -219,8 +228,11 @@ def evaluate(cases, res, st):
             req_vs = req_violations(G, req)
             req_agree = req == mreq
             st["leader_cases"] += 1
-            if "new-after-seen" in c["feats"].split(","):
-                st["leader_new_after_seen"] += 1
+            fs = c["feats"].split(",")
+            for tg, k in (("new-after-seen", "leader_new_after_seen"), ("fallback", "leader_fallback"),
+                          ("fallback-beyond-leader", "leader_fallback_beyond_leader")):
+                if tg in fs:
+                    st[k] += 1
         if base in ("range", "rr"):
             if leader:
                 go, perm = gores, "perm=same"
@@ -291,7 +303,8 @@ def evaluate(cases, res, st):
 def new_state():
     return dict(failures=[], nfail=0, evaluations=0, hist={}, seen=set(), exhaustive_cases=0, outside_hypothesis=0,
                 rack_topics_enum=0, rack_topics_noenum=0, rack_topics_multi_alt=0, rack_alts_max=0,
-                rack_go_multi=0, rack_go_results=0, rack_model_panic=0, leader_cases=0, leader_new_after_seen=0)
+                rack_go_multi=0, rack_go_results=0, rack_model_panic=0, leader_cases=0, leader_new_after_seen=0, leader_fallback=0,
+                leader_fallback_beyond_leader=0)
 
 
 def _work(job):
@@ -395,7 +408,7 @@ def correspondence(ctx):
         notes.append(f"{st['outside_hypothesis']} corpus cases skipped: duplicate member ids or topics (outside C14's hypotheses)")
     extra = {k: st[k] for k in ("exhaustive_cases", "rack_topics_enum", "rack_topics_noenum", "rack_topics_multi_alt",
                                 "rack_alts_max", "rack_go_results", "rack_go_multi", "rack_model_panic",
-                                "leader_cases", "leader_new_after_seen")}
+                                "leader_cases", "leader_new_after_seen", "leader_fallback", "leader_fallback_beyond_leader")}
     extra["exhaustive_scope"] = (
         "range/rr: all listing orders of <=%d members (ids '', m, m1, m10) x subscriptions over 2 topics (4^M, members without topics included) "
         "x 0..%d / 0..%d partitions of the two topics; rack one topic: %s; rack two topics (each member a non-empty subset): %s"
@@ -405,15 +418,18 @@ def correspondence(ctx):
             "<=3 members x 0..3 partitions each x 2 racks")))
     extra["exhaustive_scope"] += (
         "; leader path (lrange, lrr, lrack each): <=3 members, every member's topic list any duplicate-free ordered list over 3 topics "
-        "(16 lists incl. the empty one, 16^M groups) x %d small clusters (0..2 partitions per topic, with and without a topic nobody subscribes to)"
-        % (2 if scope == 1 else 9))
+        "(16 lists incl. the empty one, 16^M groups) x %s"
+        % ("5 small clusters (all topics present + an unsubscribed one; t, u, v each missing on its own; two missing), all three balancers on the "
+           "first two, one balancer each on the others" if scope == 1 else
+           "10 small clusters (0..2 partitions per topic: none / each one / two / all three topics missing, with and without an unsubscribed topic)"))
     return dict(evaluations=st["evaluations"], distinct_nontrivial=len(st["seen"]), hist=st["hist"],
                 rule="random groups from one PRNG (VERIF_SEED): 1..8 members (10%: 9..60), distinct ids with shared prefixes / empty id / "
                      "high bytes in unsorted listing order, 1..3 topics with full, partial, empty and ghost subscriptions, 0..20 (large: 0..300) "
                      "partitions per topic with contiguous, permuted or sparse ids, topics interleaved, orphan topics, 1..5 racks incl. the empty "
                      "rack, racks without members / without leaders; the same groups (more topics, mostly heterogeneous overlapping subscriptions in "
                      "shuffled order, topics missing from / extra in the cluster) through the leader path assignTopicPartitions against a fake broker "
-                     "that serves only the requested topics; plus the small-scope enumeration (extra.exhaustive_scope). Each case runs the "
+                     "that fails requests naming a topic it lacks (about 40% of the random leader cases have a subscribed topic missing, in every position of the "
+                     "sorted request; also the only topic missing, all missing); plus the small-scope enumeration (extra.exhaustive_scope). Each case runs the "
                      "real AssignGroups (range/rr also on shuffled listings, rack 8 times), is compared with the extracted model (exact for "
                      "range/rr, membership among the results over all zone iteration orders for rack) and every output is checked against the "
                      "property's predicates. A case is non-trivial unless its features are the happy path (one topic, everybody subscribed, "
